@@ -207,6 +207,7 @@ type fStore struct {
 	master []byte
 	v2keys ksrig.V2Keys
 	mem    *backend.InMemory
+	rd     *rSite // Redis-backed variants (redisfaulted.go): faults come from the fakeredis command hook
 	H      ksrig.FullKeyStore
 	hClose func()
 	fs     *ksrig.FaultStorage
@@ -218,9 +219,14 @@ type fStore struct {
 	traces map[string][]ksrig.FaultCall // storage-call trace of the last run of (operation, kind) through the main handle
 }
 
-func fOpenStore(cfg config) (*fStore, error) {
-	s := &fStore{cfg: cfg, tgts: map[ksrig.ModelID]*fTarget{}, traces: map[string][]ksrig.FaultCall{}}
-	if cfg.v2 {
+func fOpenStore(cfg config) (*fStore, error) { return fOpenStoreAt(cfg, nil) }
+
+func fOpenStoreAt(cfg config, rd *rSite) (*fStore, error) {
+	s := &fStore{cfg: cfg, rd: rd, tgts: map[ksrig.ModelID]*fTarget{}, traces: map[string][]ksrig.FaultCall{}}
+	if cfg.redis {
+		s.v2keys = ksrig.NewV2Keys()
+		s.master = ksrig.RandBytes(32)
+	} else if cfg.v2 {
 		s.v2keys = ksrig.NewV2Keys()
 		if cfg.dir {
 			s.dir = ksrig.ScratchDir("c06f-v2")
@@ -245,6 +251,16 @@ func (s *fStore) openMain() error {
 		s.hClose = nil
 	}
 	s.fs, s.be = nil, nil
+	if s.cfg.redis {
+		// a new handle with a connection pool of its own on the same server; no wrapper: faults are injected per
+		// Redis command by the server hook
+		ks, cl, err := s.rd.openHandle(s.cfg, s.master, s.v2keys, s.cfg.cache, nil, "main")
+		if err != nil {
+			return err
+		}
+		s.H, s.hClose = ks, cl
+		return nil
+	}
 	if !s.cfg.v2 {
 		fs := ksrig.NewFaultStorage(&filesystem.DummyStorage{}, s.dir, nil)
 		ks, err := ksrig.V1WithStorage(s.dir, s.master, s.cfg.cache, fs)
@@ -276,6 +292,8 @@ func (s *fStore) openMain() error {
 // openFresh opens a fresh handle straight on the storage: what a restarted process reads.
 func (s *fStore) openFresh() (ksrig.FullKeyStore, func(), error) {
 	switch {
+	case s.cfg.redis:
+		return s.rd.openHandle(s.cfg, s.master, s.v2keys, -1, nil, "fresh")
 	case !s.cfg.v2:
 		ks, err := ksrig.V1(s.dir, s.master, -1)
 		if err != nil {
@@ -298,6 +316,9 @@ func (s *fStore) openFresh() (ksrig.FullKeyStore, func(), error) {
 }
 
 func (s *fStore) setPlan(p ksrig.FaultPlan) {
+	if s.rd != nil {
+		s.rd.arm(p)
+	}
 	if s.fs != nil {
 		s.fs.SetPlan(p)
 	}
@@ -307,6 +328,9 @@ func (s *fStore) setPlan(p ksrig.FaultPlan) {
 }
 
 func (s *fStore) calls() []ksrig.FaultCall {
+	if s.rd != nil {
+		return s.rd.calls()
+	}
 	if s.fs != nil {
 		return s.fs.Calls()
 	}
@@ -385,6 +409,9 @@ type fCtx struct {
 	abort bool
 }
 
+func (c *fCtx) count(name string, n int64) { c.r.Count(c.s.cfg.cpfx()+name, n) }
+func (c *fCtx) setAdd(set, member string)  { c.r.SetAdd(c.s.cfg.cpfx()+set, member) }
+
 func (c *fCtx) logf(format string, a ...interface{}) {
 	c.s.trace = append(c.s.trace, fmt.Sprintf(format, a...))
 }
@@ -419,7 +446,7 @@ func (c *fCtx) edge(t *fTarget, id string, failed bool, sig string, extra map[st
 		return
 	}
 	if t.failing[id] {
-		c.r.Count("faulted_violations_persisting_not_rereported", 1)
+		c.count("faulted_violations_persisting_not_rereported", 1)
 		return
 	}
 	t.failing[id] = true
@@ -439,10 +466,10 @@ func (c *fCtx) readStorage() bool {
 	defer cl()
 	for _, t := range s.targets() {
 		v := fObserve(ks, t.kind, t.client)
-		c.r.Count("faulted_fresh_handle_readings", 1)
+		c.count("faulted_fresh_handle_readings", 1)
 		if v.curPanic != "" || v.allPanic != "" {
 			site := v.curPanic + v.allPanic
-			c.edge(t, "fresh-panic", true, fmt.Sprintf("faulted-history %s kind=%s view=fresh-handle panic at %s after=%s", s.cfg.fmtName(), t.kind, site, t.after()),
+			c.edge(t, "fresh-panic", true, fmt.Sprintf("%s kind=%s view=fresh-handle panic at %s after=%s", s.cfg.fName(), t.kind, site, t.after()),
 				map[string]interface{}{"stack": v.stack})
 		}
 		for _, x := range v.values() {
@@ -476,10 +503,10 @@ func (c *fCtx) checkMain(t *fTarget) {
 	h := fObserve(s.H, t.kind, t.client)
 	f := t.fresh
 	r.Case()
-	r.SetAdd("faulted_configs", s.cfg.name)
-	r.SetAdd("faulted_kinds", t.kind.String())
+	c.setAdd("faulted_configs", s.cfg.name)
+	c.setAdd("faulted_kinds", t.kind.String())
 	r.Distinct(fmt.Sprintf("faulted|%s|%s|%s|after=%s|storage:cur=%v,all=%s", s.cfg.name, t.kind, view, fAfterClass(t.after()), f.curOK(), bucket(len(f.all))))
-	pre := fmt.Sprintf("faulted-history %s kind=%s view=%s", s.cfg.fmtName(), t.kind, view)
+	pre := fmt.Sprintf("%s kind=%s view=%s", s.cfg.fName(), t.kind, view)
 	post := "after=" + t.after()
 	extra := func() map[string]interface{} {
 		return map[string]interface{}{"main_handle_shows": t.render(h), "view": view}
@@ -491,12 +518,12 @@ func (c *fCtx) checkMain(t *fTarget) {
 		return
 	}
 	if consistent {
-		r.Count("faulted_consistent_view_checked", 1)
+		c.count("faulted_consistent_view_checked", 1)
 		if strings.Contains(t.after(), "[failed") {
-			r.Count("faulted_consistent_view_checked_after_a_failed_operation", 1)
+			c.count("faulted_consistent_view_checked_after_a_failed_operation", 1)
 		}
 		if strings.HasPrefix(view, "after-") && strings.Contains(t.after(), "[failed") {
-			r.Count("faulted_after_reset_or_reopen_checked_after_a_failed_operation", 1)
+			c.count("faulted_after_reset_or_reopen_checked_after_a_failed_operation", 1)
 		}
 		// "the current key of each kind is the most recently generated surviving one" / "shows the same as soon as
 		// the cache is reset": a consistent view agrees with the storage.
@@ -526,9 +553,9 @@ func (c *fCtx) checkMain(t *fTarget) {
 			}
 		}
 	} else {
-		r.Count("faulted_warm_view_checked", 1)
+		c.count("faulted_warm_view_checked", 1)
 		if strings.Contains(t.after(), "[failed") {
-			r.Count("faulted_warm_view_checked_after_a_failed_operation", 1)
+			c.count("faulted_warm_view_checked_after_a_failed_operation", 1)
 		}
 		// (a) whatever a warm handle offers was stored at some time: a value the storage never held is not a key of
 		// this keystore ("the current key ... is the most recently generated surviving one").
@@ -537,7 +564,7 @@ func (c *fCtx) checkMain(t *fTarget) {
 			if _, ok := t.stored[string(h.cur)]; !ok {
 				class = "offers-a-value-the-storage-never-held"
 			} else if !f.offers(h.cur) {
-				r.Count("faulted_warm_current_key_no_longer_in_storage(not judged)", 1)
+				c.count("faulted_warm_current_key_no_longer_in_storage(not judged)", 1)
 			}
 		}
 		c.edge(t, "warm/cur", class != "", fmt.Sprintf("%s check=get-current class=%s %s", pre, class, post), extra())
@@ -548,7 +575,7 @@ func (c *fCtx) checkMain(t *fTarget) {
 					if _, ok := t.stored[string(x)]; !ok {
 						class = "lists-a-value-the-storage-never-held"
 					} else if !f.offers(x) {
-						r.Count("faulted_warm_listed_key_no_longer_in_storage(not judged)", 1)
+						c.count("faulted_warm_listed_key_no_longer_in_storage(not judged)", 1)
 					}
 				}
 			}
@@ -563,7 +590,7 @@ func (c *fCtx) checkMain(t *fTarget) {
 		}
 		sort.Strings(lost)
 		if len(t.offered) > 0 {
-			r.Count("faulted_warm_monotonicity_checked_with_earlier_offers", 1)
+			c.count("faulted_warm_monotonicity_checked_with_earlier_offers", 1)
 		}
 		instead := "get-current:error(" + errClass(h.curErr) + ")"
 		if h.curOK() {
@@ -657,7 +684,7 @@ func (c *fCtx) checkSamples(t *fTarget, offered [][]byte, f fView, pre, post, mo
 		var out []byte
 		var err error
 		site, stack := guard(func() { out, err = decryptWith(t.kind, sm.cipher, offered) })
-		c.r.Count("faulted_earlier_value_decrypt_checked", 1)
+		c.count("faulted_earlier_value_decrypt_checked", 1)
 		id := fmt.Sprintf("%s/sample%d", mode, i)
 		if site != "" {
 			c.edge(t, id, true, fmt.Sprintf("%s check=decrypt-earlier-value panic at %s %s", pre, site, post), map[string]interface{}{"stack": stack})
@@ -728,6 +755,10 @@ func (c *fCtx) mutate(t *fTarget, op string, rng *gen.Rand, faulted bool, f func
 				plan.At = 1 + rng.Intn(len(prev))
 			}
 		}
+		if s.rd != nil {
+			// Redis: the fault is one of the three things the command hook can do (redisfaulted.go)
+			s.rd.faultKind = rng.Intn(3)
+		}
 	}
 	before := t.fresh
 	s.setPlan(plan)
@@ -765,48 +796,159 @@ func (c *fCtx) mutate(t *fTarget, op string, rng *gen.Rand, faulted bool, f func
 			o.lastRel = rel
 		}
 	}
-	r.Count("faulted_op_"+op, 1)
+	c.count("faulted_op_"+op, 1)
 	if faulted {
-		r.Count("faulted_ops_with_a_fault_armed", 1)
+		c.count("faulted_ops_with_a_fault_armed", 1)
 	}
 	if site != "" {
-		r.Violation(fmt.Sprintf("faulted-history %s kind=%s op=%s panic at %s fault=%s", s.cfg.fmtName(), t.kind, op, site, fired),
+		r.Violation(fmt.Sprintf("%s kind=%s op=%s panic at %s fault=%s", s.cfg.fName(), t.kind, op, site, fired),
 			c.detail(t, map[string]interface{}{"stack": stack}))
 		c.abort = true
 		return
 	}
 	switch {
 	case fired != "" && err != nil:
-		r.Count("faulted_ops_failed_at_the_injected_fault", 1)
-		r.SetAdd("faulted_failed_operations", op+"/"+t.kind.String())
-		r.SetAdd("faulted_failed_operation_kinds", op)
-		r.SetAdd("faulted_fault_points", s.cfg.fmtName()+":"+op+":"+fired)
+		c.count("faulted_ops_failed_at_the_injected_fault", 1)
+		c.setAdd("faulted_failed_operations", op+"/"+t.kind.String())
+		c.setAdd("faulted_failed_operation_kinds", op)
+		c.setAdd("faulted_fault_points", s.cfg.fmtName()+":"+op+":"+fired)
 	case fired != "":
-		r.Count("faulted_ops_that_tolerated_the_fault", 1)
+		c.count("faulted_ops_that_tolerated_the_fault", 1)
 	case faulted:
-		r.Count("faulted_ops_fault_not_reached", 1)
+		c.count("faulted_ops_fault_not_reached", 1)
 	}
 	if err != nil && fired == "" {
-		r.Count("faulted_ops_failed_without_a_fault(e.g. after an earlier failure left the storage blocked)", 1)
+		c.count("faulted_ops_failed_without_a_fault(e.g. after an earlier failure left the storage blocked)", 1)
 	}
 	// what the storage holds now
 	if !c.readStorage() {
 		return
 	}
 	if failed {
+		c.checkThirdState(t, op, fired, before, t.fresh)
 		changed := before.curOK() != t.fresh.curOK() || !bytes.Equal(before.cur, t.fresh.cur) || len(before.all) != len(t.fresh.all)
 		if changed {
-			r.Count("faulted_failed_operation_took_effect_in_storage", 1)
+			c.count("faulted_failed_operation_took_effect_in_storage", 1)
 		} else {
-			r.Count("faulted_failed_operation_left_storage_unchanged", 1)
+			c.count("faulted_failed_operation_left_storage_unchanged", 1)
 		}
 	}
 	return
 }
 
+// checkThirdState: after a FAILED generate / rotate / destroy the storage, as a fresh handle reads it, must be in a state
+// the reference model allows for this key — the state before the operation or the state after it ("the current key of
+// each kind is the most recently generated surviving one, every surviving older key is still offered ... newest-first";
+// "removes that key and no other") — never a third one: no current key although the current key was not destroyed, an
+// older key promoted to current, a surviving key no longer offered, the surviving keys re-ordered, get-all failing.
+// Tolerated because a fresh handle judges them as surviving keys all the same: a key listed twice (v1: the history copy
+// made before the failed rename) and a new key that is listed but not (yet) current (v2).
+func (c *fCtx) checkThirdState(t *fTarget, op, fired string, before, after fView) {
+	if after.curPanic != "" || after.allPanic != "" || before.curPanic != "" || before.allPanic != "" {
+		return // reported by readStorage
+	}
+	c.count("faulted_third_state_checked", 1)
+	in := func(l [][]byte, v []byte) bool { return fIn(l, v) }
+	dedupe := func(l [][]byte) [][]byte {
+		var out [][]byte
+		for _, v := range l {
+			if !fIn(out, v) {
+				out = append(out, v)
+			}
+		}
+		return out
+	}
+	var bAll, aAll [][]byte
+	hasAll := t.kind.HasGetAll() && before.allOK()
+	if hasAll {
+		bAll = dedupe(before.all)
+		if after.allOK() {
+			aAll = dedupe(after.all)
+		}
+	}
+	known := func(v []byte) bool { // a value the storage offered before the operation
+		return before.curOK() && bytes.Equal(before.cur, v) || in(bAll, v)
+	}
+	what := ""
+	destroy := strings.HasPrefix(op, "destroy")
+	switch {
+	case !destroy || op == "destroy-rotated":
+		// rotation (the current key stays or a NEW key becomes current) / destruction of a rotated key (current key untouched)
+		switch {
+		case before.curOK() && !after.curOK():
+			what = "no-current-key(" + errClass(after.curErr) + ")-although-the-current-key-was-not-destroyed"
+		case before.curOK() && !bytes.Equal(before.cur, after.cur) && (known(after.cur) || destroy):
+			what = "another-key-became-current"
+		case !before.curOK() && after.curOK() && (known(after.cur) || destroy):
+			what = "an-older-key-became-current"
+		}
+	default:
+		// destroy-current: the current key stays, or it is gone (get-current fails or falls back to a surviving key)
+		if after.curOK() && !known(after.cur) {
+			what = "a-value-never-offered-before-became-current"
+		}
+	}
+	if what == "" && hasAll {
+		lost := 0
+		for _, v := range bAll {
+			if after.allOK() && !in(aAll, v) {
+				if op == "destroy-current" && before.curOK() && bytes.Equal(v, before.cur) {
+					continue
+				}
+				lost++
+			}
+		}
+		allowed := 0
+		if op == "destroy-rotated" {
+			allowed = 1
+		}
+		others := 0 // keys offered before, other than the current one
+		for _, v := range bAll {
+			if !(before.curOK() && bytes.Equal(v, before.cur)) {
+				others++
+			}
+		}
+		switch {
+		case !after.allOK() && op == "destroy-current" && !after.curOK() && others == 0:
+			// the destruction took effect and no key survives: get-all has nothing to offer (an error is accepted, as
+			// in the first layer)
+		case !after.allOK():
+			what = "get-all-fails(" + errClass(after.allErr) + ")-although-it-worked-before"
+		case lost > allowed:
+			what = "a-surviving-key-is-no-longer-offered"
+		default:
+			// the keys offered before keep their relative order
+			var order []int
+			for _, v := range aAll {
+				for i, b := range bAll {
+					if bytes.Equal(b, v) {
+						order = append(order, i)
+					}
+				}
+			}
+			if !sort.IntsAreSorted(order) {
+				what = "surviving-keys-re-ordered"
+			}
+		}
+	}
+	if what == "" {
+		return
+	}
+	fault := fired
+	if fault == "" {
+		fault = "none(failed-without-fault)"
+	}
+	sig := fmt.Sprintf("%s kind=%s op=%s fault=%s check=third-state:%s", c.s.cfg.fName(), t.kind, op, fault, what)
+	c.logf("  !! %s", sig)
+	c.r.Violation(sig, c.detail(t, map[string]interface{}{"storage_before_the_operation": t.render(before), "storage_after_the_failed_operation": t.render(after)}))
+}
+
 // fUsualCalls: about how many storage calls (v2: data calls) the operation makes; only used to draw the fault index
 // of an operation that has not run through the handle yet (a fault index past the end is counted as not reached).
 func fUsualCalls(cfg config, op string, k ksrig.ModelKind) int {
+	if cfg.redis {
+		return rUsualCommands(cfg, op, k)
+	}
 	switch {
 	case op == "destroy-current" && !cfg.v2:
 		if k.IsPair() {
@@ -863,14 +1005,14 @@ func (c *fCtx) opDestroyRotated(t *fTarget, rng *gen.Rand, faulted bool) bool {
 			entries = ksrig.ModelFilterRotated(d, c.s.cfg.v2, t.kind, t.client)
 		}
 	})
-	c.r.Count("faulted_list_rotated_calls", 1)
+	c.count("faulted_list_rotated_calls", 1)
 	if site != "" {
-		c.r.Violation(fmt.Sprintf("faulted-history %s op=list-rotated panic at %s", c.s.cfg.fmtName(), site), c.detail(t, map[string]interface{}{"stack": stack}))
+		c.r.Violation(fmt.Sprintf("%s op=list-rotated panic at %s", c.s.cfg.fName(), site), c.detail(t, map[string]interface{}{"stack": stack}))
 		c.abort = true
 		return true
 	}
 	if err != nil {
-		c.r.Count("faulted_list_rotated_errors(not decided here)", 1)
+		c.count("faulted_list_rotated_errors(not decided here)", 1)
 		return false
 	}
 	if len(entries) == 0 {
@@ -928,11 +1070,11 @@ func (c *fCtx) opSample(t *fTarget, rng *gen.Rand) {
 		}
 	})
 	if site != "" || err != nil || key == nil {
-		c.r.Count("faulted_samples_skipped", 1)
+		c.count("faulted_samples_skipped", 1)
 		return
 	}
 	t.samples = append(t.samples, fSample{key: key, cipher: cipher, plain: plain})
-	c.r.Count("faulted_samples_encrypted", 1)
+	c.count("faulted_samples_encrypted", 1)
 	c.logf("encrypt-sample %s under %s", t.name(), t.label(key))
 }
 
@@ -943,7 +1085,7 @@ func (c *fCtx) opReset() {
 	for _, t := range c.s.targets() {
 		t.offered = map[string]bool{}
 	}
-	c.r.Count("faulted_op_reset_cache", 1)
+	c.count("faulted_op_reset_cache", 1)
 	c.logf("reset-cache")
 }
 
@@ -958,7 +1100,7 @@ func (c *fCtx) opReopen() {
 	for _, t := range c.s.targets() {
 		t.offered = map[string]bool{}
 	}
-	c.r.Count("faulted_op_reopen", 1)
+	c.count("faulted_op_reopen", 1)
 	c.logf("reopen (fresh main handle)")
 }
 
@@ -984,6 +1126,11 @@ func runFaultedHistory(r *ev.Run, hidx int) {
 		return
 	}
 	defer s.close()
+	fDrive(r, hidx, cfg, rng, s)
+}
+
+// fDrive runs one faulted history on an opened store (shared with the Redis layer, redisfaulted.go).
+func fDrive(r *ev.Run, hidx int, cfg config, rng *gen.Rand, s *fStore) {
 	c := &fCtx{r: r, s: s, hidx: hidx}
 	n := 8 + rng.Intn(28)
 	type target struct {
@@ -1026,7 +1173,7 @@ func runFaultedHistory(r *ev.Run, hidx int) {
 			}
 		case x < 43:
 			c.logf("read %s through the main handle (%s)", t.name(), s.viewName())
-			r.Count("faulted_op_read", 1)
+			c.count("faulted_op_read", 1)
 			c.checkMain(t)
 		case x < 59:
 			if t.kind.HasDestroy() {
@@ -1044,7 +1191,7 @@ func runFaultedHistory(r *ev.Run, hidx int) {
 		default:
 			c.opSample(t, rng)
 		}
-		r.Count("faulted_steps", 1)
+		c.count("faulted_steps", 1)
 		if c.abort {
 			break
 		}
@@ -1096,9 +1243,9 @@ func runFaultedHistory(r *ev.Run, hidx int) {
 		}
 	}
 	if c.abort {
-		r.Count("faulted_histories_stopped_early", 1)
+		c.count("faulted_histories_stopped_early", 1)
 	}
-	r.Count("faulted_histories", 1)
+	c.count("faulted_histories", 1)
 	r.SampleN("faulted:"+cfg.name, 1, map[string]interface{}{"layer": "histories with failed operations", "config": cfg.name, "history": hidx, "steps": s.trace})
 }
 
@@ -1143,6 +1290,7 @@ func runFaultedHistories(r *ev.Run, workers int) {
 	r.RequireAtLeast("faulted_consistent_view_checked_after_a_failed_operation", q(200, 4000))
 	r.RequireAtLeast("faulted_after_reset_or_reopen_checked_after_a_failed_operation", q(50, 1000))
 	r.RequireAtLeast("faulted_earlier_value_decrypt_checked", q(50, 1000))
+	r.RequireAtLeast("faulted_third_state_checked", q(200, 4000))
 	r.RequireSetAtLeast("faulted_configs", 6)
 	r.RequireSetAtLeast("faulted_kinds", len(ksrig.ModelKinds))
 	r.RequireSetAtLeast("faulted_failed_operation_kinds", 4)
